@@ -199,7 +199,7 @@ def rule_r1(chk, prog):
                             raise AnalysisError(
                                 f'{om.loc(c)}: {cls}(...) without {pname}')
                         sinks.append((om, c, b[pname], cls))
-    chk.floor('C13.R1', 'generator construction sites', len(sinks), 3)
+    chk.floor('C13.R1', 'generator construction sites', len(sinks), 2)
     cl = Clean(prog, chk)
     for (om, c, arg, cls) in sinks:
         fn = _enclosing_fn(c)
